@@ -533,6 +533,9 @@ func (i *IniParser) parse(ini *ini) error {
 
 	var quotesLookup = make(map[*Option]bool)
 
+	// Options which got a value from this ini file
+	var setHere = make(map[*Option]bool)
+
 	// Apply sections in file order (ranging over the map would be random)
 	for _, name := range ini.sectionNames {
 		section := ini.Sections[name]
@@ -578,7 +581,9 @@ func (i *IniParser) parse(ini *ini) error {
 			}
 
 			// ini value is ignored if parsed as default but defaults are prevented
-			if i.ParseAsDefaults && opt.preventDefault {
+			// (unless prevented by an earlier entry for the same option in this
+			// file, as for the repeated key of a slice or map option)
+			if i.ParseAsDefaults && opt.preventDefault && !setHere[opt] {
 				continue
 			}
 
@@ -614,6 +619,8 @@ func (i *IniParser) parse(ini *ini) error {
 			var err error
 
 			if i.ParseAsDefaults {
+				// a further entry for an option already set from this file
+				opt.preventDefault = false
 				err = opt.setDefault(pval)
 			} else {
 				err = opt.Set(pval)
@@ -629,6 +636,7 @@ func (i *IniParser) parse(ini *ini) error {
 
 			// Defaults from ini files take precendence over defaults from parser
 			opt.preventDefault = true
+			setHere[opt] = true
 
 			// either all INI values are quoted or only values who need quoting
 			if _, ok := quotesLookup[opt]; !inival.Quoted || !ok {
